@@ -8,9 +8,9 @@ from .gen import pv
 from .rec_activity import mix_desc
 from .trace import F
 
-BUDGET = 250000          # watchdog: evaluations after which a call is aborted by the harness
-CPU_GUARD_S = 60.0       # second watchdog, for code that no longer goes through the observed method: CPU seconds (user time of this
-                         # process, not wall-clock) after which a call is aborted; 250 000 evaluations take 15-25 CPU seconds
+BUDGET = 120000          # watchdog: evaluations after which a call is aborted by the harness
+CPU_GUARD_S = 120.0      # second watchdog, for code that no longer goes through the observed method: CPU seconds (user time of this
+                         # process, not wall-clock) after which a call is aborted; 120 000 evaluations take 8-20 CPU seconds, so on observable paths the counter fires first
 KEEP_HEAD, KEEP_TAIL = 30, 30
 
 
@@ -27,6 +27,7 @@ class Wrapper:
         self.cpu_aborts = 0
         self.eval_aborts = 0
         self.cpu_fired = False
+        self.armed = False
 
     def enough_aborts(self):
         """this job has already seen calls that do not terminate within the budgets: the verdict is in, stop spending minutes on more"""
@@ -60,8 +61,12 @@ class Wrapper:
         self.calls, self.tail, self.count = [], [], 0
         self.budget = budget or BUDGET
         self.cpu_fired = False
+        self.armed = True
         try:
             def on_cpu(signum, frame):
+                if not self.armed:          # the call is already over: nothing to abort
+                    return
+                self.armed = False
                 self.cpu_fired = True
                 self.cpu_aborts += 1
                 raise Abort()
@@ -71,6 +76,7 @@ class Wrapper:
             pass
 
     def stop(self):
+        self.armed = False
         try:
             signal.setitimer(signal.ITIMER_VIRTUAL, 0.0)
         except ValueError:
